@@ -1,0 +1,44 @@
+//go:build verif
+
+package interpreter
+
+import "github.com/tetratelabs/wazero/internal/wasm"
+
+// VerifRawOp is a read-only copy of every field of one lowered interpreter operation, exactly as the call
+// engine executes it (branch targets resolved to indexes into the operation list).
+type VerifRawOp struct {
+	Kind       string
+	B1, B2     byte
+	B3         bool
+	U1, U2, U3 uint64
+	Us         []uint64
+}
+
+// VerifRawLoweredOps returns, per locally defined function of a module compiled by eng, the complete lowered
+// operation list (nil for host functions); false if eng is not the interpreter or has not compiled the module.
+// Verification instrumentation: read-only, never called by production code.
+func VerifRawLoweredOps(eng wasm.Engine, module *wasm.Module) ([][]VerifRawOp, bool) {
+	e, ok := eng.(*engine)
+	if !ok {
+		return nil, false
+	}
+	fs, ok := e.getCompiledFunctions(module)
+	if !ok {
+		return nil, false
+	}
+	ret := make([][]VerifRawOp, len(fs))
+	for i := range fs {
+		if fs[i].hostFn != nil {
+			continue
+		}
+		body := fs[i].body
+		ops := make([]VerifRawOp, len(body))
+		for j := range body {
+			op := &body[j]
+			ops[j] = VerifRawOp{Kind: op.Kind.String(), B1: op.B1, B2: op.B2, B3: op.B3, U1: op.U1, U2: op.U2, U3: op.U3,
+				Us: append([]uint64(nil), op.Us...)}
+		}
+		ret[i] = ops
+	}
+	return ret, true
+}
